@@ -36,6 +36,10 @@ pub struct PeerView {
     pub goaway_seen: bool,
     pub sent_goaway: bool,
     pub seen_out: usize,
+    /// control profile: ops to execute back to back before anything else is drawn
+    pub queue: std::collections::VecDeque<Value>,
+    /// control profile: last-stream ids of the GOAWAY frames the peer has sent
+    pub goaway_lasts: Vec<u32>,
 }
 
 #[derive(Debug, Clone)]
@@ -51,10 +55,12 @@ pub struct Profile {
     pub tiny_windows: bool,
     pub small_limits: bool,
     pub recv_heavy: bool,
+    /// control-plane ops (gen_control) are mixed in; false for every other profile (no extra PRNG draws)
+    pub control: bool,
 }
 
 pub fn profile(name: &str) -> Profile {
-    let base = Profile { name: "mixed", w_conn_poll: 30, w_peer: 30, w_app: 40, w_io: 3, w_chaos: 0, w_end: 1, max_data: 3000, tiny_windows: false, small_limits: false, recv_heavy: false };
+    let base = Profile { name: "mixed", w_conn_poll: 30, w_peer: 30, w_app: 40, w_io: 3, w_chaos: 0, w_end: 1, max_data: 3000, tiny_windows: false, small_limits: false, recv_heavy: false, control: false };
     match name {
         "flow" => Profile { name: "flow", tiny_windows: true, max_data: 400, w_io: 6, ..base },
         "limits" => Profile { name: "limits", small_limits: true, max_data: 200, ..base },
@@ -62,6 +68,7 @@ pub fn profile(name: &str) -> Profile {
         "chaos" => Profile { name: "chaos", w_chaos: 12, ..base },
         "reset" => Profile { name: "reset", max_data: 500, ..base },
         "shutdown" => Profile { name: "shutdown", w_end: 6, ..base },
+        "control" => Profile { name: "control", w_end: 2, w_io: 5, control: true, ..base },
         _ => base,
     }
 }
@@ -136,6 +143,8 @@ impl PeerView {
             goaway_seen: false,
             sent_goaway: false,
             seen_out: 0,
+            queue: std::collections::VecDeque::new(),
+            goaway_lasts: vec![],
         }
     }
 
@@ -534,6 +543,116 @@ pub fn gen_app(rng: &mut Rng, d: &Driver, p: &Profile) -> Option<Value> {
     Some(opts.swap_remove(i))
 }
 
+/// PING payloads h2 itself uses (frame/ping.rs): a peer that echoes them unsolicited probes the
+/// shutdown / user-ping bookkeeping.
+const PING_SHUTDOWN: [u8; 8] = [0x0b, 0x7b, 0xa2, 0xf0, 0x8b, 0x9b, 0xfe, 0x54];
+const PING_USER: [u8; 8] = [0x3b, 0x7c, 0xdb, 0x7a, 0x0b, 0x87, 0x16, 0xb4];
+
+fn control_settings(rng: &mut Rng) -> Value {
+    let mut params: Vec<(u16, u32)> = vec![];
+    if rng.chance(1, 2) { params.push((5, *rng.pick(&[16384u32, 16384, 16500, 20000, 65536, 16777215]))); }
+    if rng.chance(1, 2) { params.push((4, *rng.pick(&[0u32, 1, 1000, 65535, 100000, 1000000, 0x7fff_ffff]))); }
+    if rng.chance(1, 3) { params.push((1, *rng.pick(&[0u32, 64, 4096, 65536]))); }
+    if rng.chance(1, 4) { params.push((3, *rng.pick(&[0u32, 1, 3, 100]))); }
+    if rng.chance(1, 6) { params.push((2, rng.below(2) as u32)); }
+    if rng.chance(1, 6) { params.push((6, *rng.pick(&[100u32, 16384, 1000000]))); }
+    if rng.chance(1, 8) { params.push((8, rng.below(2) as u32)); }
+    if rng.chance(1, 8) { params.push((0x99, 7)); }
+    if rng.chance(1, 10) { params.push((5, 16384)); }
+    peer_bytes(wire::settings(&params), json!({"t":"SETTINGS","params":params.iter().map(|(a,b)| json!([a,b])).collect::<Vec<_>>()}))
+}
+
+fn control_ping(rng: &mut Rng, ack: bool) -> Value {
+    let pl: [u8; 8] = match rng.below(6) {
+        0 => PING_SHUTDOWN,
+        1 => PING_USER,
+        2 => [0; 8],
+        _ => [rng.byte(), rng.byte(), 3, 4, 5, 6, rng.byte(), rng.byte()],
+    };
+    peer_bytes(wire::ping(ack, pl), json!({"t":"PING","ack":ack,"payload":pl}))
+}
+
+/// Control-plane ops (profile "control"): SETTINGS / PING bursts, unsolicited acknowledgements, GOAWAY sequences with
+/// decreasing and increasing ids, user pings, graceful / abrupt shutdown, local SETTINGS changes, tight write budgets.
+pub fn gen_control(rng: &mut Rng, d: &Driver, pv: &mut PeerView) -> Option<Value> {
+    let client = d.cfg.role_client;
+    match rng.below(100) {
+        0..=13 => {
+            // 1-4 SETTINGS back to back
+            let k = rng.range(1, 4);
+            for _ in 1..k { let op = control_settings(rng); pv.queue.push_back(op); }
+            Some(control_settings(rng))
+        }
+        14..=25 => {
+            // 1-4 PINGs back to back, possibly interleaved with a SETTINGS
+            let k = rng.range(1, 4);
+            for _ in 1..k {
+                let op = if rng.chance(1, 5) { control_settings(rng) } else { control_ping(rng, false) };
+                pv.queue.push_back(op);
+            }
+            Some(control_ping(rng, false))
+        }
+        26..=29 => Some(control_ping(rng, true)),      // unsolicited PONG
+        30 => Some(peer_bytes(wire::settings_ack(), json!({"t":"SETTINGS","ack":true}))),   // possibly stray
+        31..=35 => {
+            // GOAWAY: mostly non-increasing ids, sometimes an increase; any code; debug data of various lengths
+            let prev = pv.goaway_lasts.last().copied();
+            let cands: [u32; 8] = [0, 1, 2, 3, 5, 9, 101, 0x7fff_ffff];
+            let mut last = *rng.pick(&cands);
+            if let Some(pr) = prev {
+                if last > pr && rng.chance(3, 4) { last = if rng.chance(1, 2) { pr } else { pr.saturating_sub(2) }; }
+            }
+            let code = *rng.pick(&[0u32, 0, 0, 0, 0, 1, 2, 11, 0xdead_beef]);
+            let n = *rng.pick(&[0usize, 0, 3, 8, 40]);
+            let dbg: Vec<u8> = (0..n).map(|i| b'a' + (i % 26) as u8).collect();
+            pv.goaway_lasts.push(last);
+            pv.sent_goaway = true;
+            let op = peer_bytes(wire::goaway(last, code, &dbg), json!({"t":"GOAWAY","last":last,"code":code,"debug":dbg}));
+            if rng.chance(1, 4) {
+                // a second one right behind
+                let last2 = if rng.chance(1, 4) { last.saturating_add(2) } else { last.saturating_sub(*rng.pick(&[0u32, 2, 4])) };
+                pv.goaway_lasts.push(last2);
+                pv.queue.push_back(peer_bytes(wire::goaway(last2, code, b"x"), json!({"t":"GOAWAY","last":last2,"code":code,"debug":[120]})));
+            }
+            Some(op)
+        }
+        36..=55 => {
+            // user pings
+            if d.ping_pong.is_none() { return Some(json!({"op":"take_ping_pong"})); }
+            Some(match rng.below(10) {
+                0..=4 => json!({"op":"send_ping"}),
+                5..=8 => json!({"op":"poll_pong"}),
+                _ => json!({"op":"take_ping_pong"}),
+            })
+        }
+        56..=63 => Some(json!({"op":"set_initial_window","n": *rng.pick(&[0u32, 1, 1000, 65535, 100000, 0x7fff_ffff])})),
+        64..=72 => {
+            if client { return Some(json!({"op":"conn_poll"})); }
+            Some(if rng.chance(3, 4) { json!({"op":"graceful_shutdown"}) } else { json!({"op":"abrupt_shutdown","code": *rng.pick(&[0u32, 0, 2, 8, 11])}) })
+        }
+        73..=86 => Some(json!({"op":"write_mode","mode":"budget","n": *rng.pick(&[0u64, 1, 8, 9, 10, 16, 17, 18, 25, 26, 34, 50, 100])})),
+        87..=90 => Some(json!({"op":"write_mode","mode":"all"})),
+        91..=95 => {
+            // a large body so that MAX_FRAME_SIZE matters
+            let cands: Vec<usize> = (0..d.handles.len()).filter(|&i| d.handles[i].send.is_some() && !d.handles[i].send_done).collect();
+            if cands.is_empty() { return None; }
+            let h = *rng.pick(&cands);
+            Some(json!({"op":"send_data","h":h,"len": *rng.pick(&[16384u64, 16385, 20000, 40000]),"eos":false}))
+        }
+        _ => {
+            if !client {
+                // a new peer stream with a jump in the id (also after the endpoint's GOAWAY)
+                let sid = pv.next_peer_sid + 2 * rng.below(3) as u32;
+                pv.next_peer_sid = sid + 2;
+                let block = req_block(rng, None);
+                pv.streams.push(PStream { sid, peer_open: false, ep_open: true, reset: false, peer_head_sent: true, window: pv.ep_init_window, sent_off: 0, initiated_by_peer: true });
+                return Some(peer_bytes(wire::headers(sid, &block, true, 0), json!({"t":"HEADERS","sid":sid,"eos":true,"cl":null})));
+            }
+            None
+        }
+    }
+}
+
 pub fn gen_io(rng: &mut Rng) -> Value {
     match rng.below(10) {
         0..=2 => json!({"op":"write_mode","mode":"budget","n": *rng.pick(&[0u64, 1, 5, 9, 10, 50, 500])}),
@@ -553,6 +672,22 @@ pub fn run_random(d: &mut Driver, rng: &mut Rng, p: &Profile, steps: usize) {
     while done < steps && tries < steps * 20 {
         tries += 1;
         pv.observe(d);
+        if p.control {
+            if let Some(op) = pv.queue.pop_front() {
+                log_op(&op);
+                d.exec(&op);
+                done += 1;
+                continue;
+            }
+            if rng.chance(1, 4) {
+                if let Some(op) = gen_control(rng, d, &mut pv) {
+                    log_op(&op);
+                    d.exec(&op);
+                    done += 1;
+                }
+                continue;
+            }
+        }
         let total = p.w_conn_poll + p.w_peer + p.w_app + p.w_io + p.w_chaos + p.w_end;
         let mut r = rng.below(total);
         let poll_op = |rng: &mut Rng| -> Value {
@@ -594,8 +729,20 @@ pub fn run_random(d: &mut Driver, rng: &mut Rng, p: &Profile, steps: usize) {
             }
         };
         if let Some(op) = op {
+            log_op(&op);
             d.exec(&op);
             done += 1;
+        }
+    }
+}
+
+/// Debug aid: with VERIF_OPS_LOG=<file> every generated op is appended to the file before it is executed, so that a run
+/// that aborts the process (panic while panicking) can still be replayed.
+fn log_op(op: &Value) {
+    if let Ok(p) = std::env::var("VERIF_OPS_LOG") {
+        use std::io::Write;
+        if let Ok(mut f) = std::fs::OpenOptions::new().create(true).append(true).open(p) {
+            let _ = writeln!(f, "{}", op);
         }
     }
 }
